@@ -27,6 +27,7 @@ class Result:
         self.variants = 0
         self.notes = []
         self.guard_sites = []
+        self.g2_callee_witness = None
         self.guard_falsifiable = {}      # own guard -> [fails in some model, undecided in some model]
 
 
@@ -245,6 +246,9 @@ def _judge_violating(res, tr, m, kind, choice):
 
 
 def _judge_valid(res, tr, m, g2_depth, choice):
+    if tr.fired is not None and 1 <= tr.fired.get("depth", 0) <= g2_depth and res.g2_callee_witness is None:
+        # a valid call runs into the check of a member it calls internally
+        res.g2_callee_witness = {"model": T.show_model(m) + _variant_text(choice), "guard": fmt_guard(tr.fired)}
     if tr.fired is not None and tr.fired.get("depth", 0) <= g2_depth:
         if res.g2 != "REFUTED":
             res.g2 = "REFUTED"
